@@ -25,13 +25,15 @@ PREFIXES = {
     # the OTHER graph goes through a view of the shared tensor; shared tensor that is a constant (no staleness marker at all)
     "zview": ["L = x * k", "xv = x[:2]", "z = xv * c2"],
     "constshared": ["L = x * kc", "kv = kc[:2]", "z = k[:2] * kv"],
+    # L itself is an input of the other graph: back-propagating the other result releases L's own graph
+    "Lconsumed": ["L = x * k", "z = (L * c2).sum()"],
 }
 # tensors upstream of L (a view that only the OTHER graph went through is not: its gradient legitimately reads None)
-CHECK_NAMES = {"zview": ("x", "k"), "constshared": ("x",)}
+CHECK_NAMES = {"zview": ("x", "k"), "constshared": ("x",), "Lconsumed": ("x", "k")}
 EVENTS = ["z.backward()", "z.clear_graph()", "x[...] = c1", "x[:1] = c1", "xv[...] = c1", "x *= c2", "w = x * c2", "w = k * c2",
-          "x.null_grad()", "w = x[::-1]", "w.backward()", "m[...] = c1", "w = m * c2", "k[1:] = c1", "rawwrite(x)", "rawwrite(k)", "rawwrite(m)", "rawwrite(xv)", "rawwrite(kc)", "x.reshape(-1)", "m.reshape(-1)"]
+          "x.null_grad()", "w = x[::-1]", "w.backward()", "m[...] = c1", "w = m * c2", "k[1:] = c1", "rawwrite(x)", "rawwrite(k)", "rawwrite(m)", "rawwrite(xv)", "rawwrite(kc)", "x.reshape(-1)", "m.reshape(-1)", "kc[...] = c1", "kc[:1] = c1"]
 EVENTS_Q = ["z.backward()", "z.clear_graph()", "x[...] = c1", "x[:1] = c1", "xv[...] = c1", "w = x * c2", "x.null_grad()", "w.backward()",
-            "m[...] = c1", "w = m * c2", "rawwrite(x)", "rawwrite(k)", "rawwrite(m)", "rawwrite(kc)", "x.reshape(-1)"]  # the last: a view whose result is dropped at once
+            "m[...] = c1", "w = m * c2", "rawwrite(x)", "rawwrite(k)", "rawwrite(m)", "rawwrite(kc)", "x.reshape(-1)", "kc[...] = c1"]  # x.reshape(-1): a view whose result is dropped at once
 
 
 class Setup:
@@ -75,7 +77,8 @@ def histories(tier):
     for pname, prefix in PREFIXES.items():
         defined = {ln.split(" = ")[0] for ln in prefix}
         for n in range(1, maxlen + 1):
-            for seq in itertools.product(ev, repeat=n):
+            evp = ev if pname != "Lconsumed" else [e for e in ev if e in ("z.backward()", "z.clear_graph()", "x.null_grad()", "w = x * c2", "x[...] = c1", "rawwrite(x)")]
+            for seq in itertools.product(evp, repeat=n):
                 if n == 4 and (hash(seq) % 4):
                     continue
                 names = set(defined)
@@ -91,9 +94,9 @@ def histories(tier):
                         needs.discard("w")
                     if e.startswith("rawwrite("):
                         needs = {e[9:-1]} - {"x", "k", "kc"}
-                        if "kc" in e and "kc" not in " ".join(prefix):
-                            ok = False
-                            break
+                    if "kc" in e and "kc" not in " ".join(prefix):
+                        ok = False
+                        break
                     if not needs <= names:
                         ok = False
                         break
@@ -186,6 +189,12 @@ def signature(pname, lines, msg, kind="grad"):
     consumer set, which defeats the only staleness test (Operation.backward: `if not var._ops: raise`)"""
     clear = [i for i, e in enumerate(lines) if e in ("z.backward()", "z.clear_graph()", "w.backward()")]
     reuse = [i for i, e in enumerate(lines) if e.startswith("w = ") or e.endswith(".reshape(-1)")]
+    if kind == "grad" and clear and pname == "constshared" and any(e.startswith("kc[") and i > min(clear) for i, e in enumerate(lines)):
+        # the shared tensor is a constant (no staleness marker at all) and is updated in place after the other graph was released
+        return "const-shared-inplace:" + "; ".join(lines)
+    if kind == "grad" and clear and pname == "Lconsumed":
+        # after the other result's backward() L has no creator left: L.backward() silently does nothing
+        return "terminal-consumed:" + "; ".join(lines)
     if kind == "grad" and clear and any(r > min(clear) for r in reuse):
         # keyed by the exact history: known_findings.json lists the histories of this pattern that give a wrong gradient on the
         # pinned tree; a history of the same pattern that is NOT listed (it was correct there) is reported as a violation
@@ -216,7 +225,7 @@ def run_case(spec, tier):
             res["notes"].append("%s: %s" % ("; ".join(lines), msg))
             continue
         sig = signature(pname, lines, msg, kind)
-        if os.environ.get("VERIF_C09_DUMP") and sig.startswith("clear->reuse:"):
+        if os.environ.get("VERIF_C09_DUMP") and sig.split(":")[0] in ("clear->reuse", "const-shared-inplace", "terminal-consumed"):
             with open(os.environ["VERIF_C09_DUMP"], "a") as f:
                 f.write(sig + "\n")
         known = common.match_known(common.load_known(PROP), sig)
